@@ -682,10 +682,17 @@ sqf::runtime::runtime::result sqf::runtime::runtime::execute(sqf::runtime::runti
 
 ::sqf::runtime::value sqf::runtime::runtime::evaluate_expression(std::string view, bool& success, bool request_halt)
 {
+#ifdef SQFVM_RUNTIME_VERIF
+    while (m_evaluate_halt) { SQFVM_VERIF_POINT("spin:eval.wait_halt_free"); }
+#endif
     while (m_evaluate_halt);
+    SQFVM_VERIF_POINT("eval.set_halt");
     m_evaluate_halt = true;
     if (request_halt)
     {
+#ifdef SQFVM_RUNTIME_VERIF
+        while (m_state == state::running) { SQFVM_VERIF_POINT("spin:eval.wait_not_running"); }
+#endif
         while (m_state == state::running);
     }
     auto& sqf_parser = parser_sqf();
